@@ -91,11 +91,12 @@ func (c *HTTPResponder) Hijack() (net.Conn, *bufio.ReadWriter, error) {
 	}
 
 	// Hijack the connection to get the underlying net.Conn.
-	clientConn, _, err := hj.Hijack()
+	clientConn, buffered, err := hj.Hijack()
 	if err != nil {
 		slog.Error("Failed to hijack connection", "error", err)
 		return nil, nil, fmt.Errorf("%w: %v", ErrHijackFailed, err)
 	}
 
-	return clientConn, nil, nil
+	// What the client sent right behind its request has already been read into net/http's buffer.
+	return clientConn, buffered, nil
 }
